@@ -329,9 +329,6 @@ theorem decCCH_encCC (cs : List Bytes) (e : Bytes) (h : encCC cs = some e) : dec
 
 /-! ### store / cache -/
 
-/-- the cache only holds what the store holds -/
-def Inv (s : State) : Prop := ∀ h v, s.cache.lookup h = some v → s.store.lookup h = some v
-
 theorem lookup_cons_eq (m : Map) (k v h : Bytes) :
     List.lookup h ((k, v) :: m) = if h == k then some v else m.lookup h := by
   simp only [List.lookup]
@@ -376,75 +373,144 @@ theorem lookup_filter_ne (m : Map) (k h v : Bytes) (hl : (m.filter (fun e => e.1
       · simp only [hh, Bool.false_eq_true, if_false] at hl ⊢
         exact ih hl
 
-/-- the store only grows: a stored chain stays, unchanged, whatever happens -/
-theorem store_stable_step (s : State) (op : Op) (h v : Bytes) (hs : s.store.lookup h = some v) :
-    (step s op).store.lookup h = some v := by
+theorem lookup_setKey (m : Map) (h v k x : Bytes) (hl : (setKey m h v).lookup k = some x) :
+    (k = h ∧ x = v) ∨ m.lookup k = some x := by
+  unfold setKey at hl
+  rw [lookup_cons_eq] at hl
+  by_cases hk : (k == h) = true
+  · simp only [hk, if_true, Option.some.injEq] at hl
+    exact Or.inl ⟨by simpa using hk, hl.symm⟩
+  · simp only [hk, Bool.false_eq_true, if_false] at hl
+    exact Or.inr (lookup_filter_ne _ _ _ _ hl)
+
+/-- what is in the store or in the cache was handed to `storage.Add` (or written by a tamper) under that key -/
+def InvK (s : State) : Prop :=
+  (∀ h v, s.store.lookup h = some v → (h, v) ∈ s.known) ∧ (∀ h v, s.cache.lookup h = some v → (h, v) ∈ s.known)
+
+/-- honest histories: every known pair is the content-addressed one and is what the store holds -/
+def InvH (c : Bytes → Bytes) (s : State) : Prop :=
+  ∀ h v, (h, v) ∈ s.known → v = c h ∧ s.store.lookup h = some v
+
+/-- the cache only holds what the store holds -/
+def Inv (s : State) : Prop := ∀ h v, s.cache.lookup h = some v → s.store.lookup h = some v
+
+theorem invK_init : InvK State.init := ⟨by intro h v hl; simp [State.init] at hl, by intro h v hl; simp [State.init] at hl⟩
+theorem invH_init (c : Bytes → Bytes) : InvH c State.init := by intro h v hm; simp [State.init] at hm
+
+theorem invK_step (s : State) (op : Op) (hi : InvK s) : InvK (step s op) := by
+  obtain ⟨hs, hc⟩ := hi
   cases op with
   | add k x =>
     simp only [step]
     split
-    · exact hs
-    · rename_i hn
-      simp only
-      rw [lookup_cons_eq]
-      by_cases hk : (h == k) = true
-      · have : h = k := by simpa using hk
-        subst this
-        rw [hs] at hn; simp at hn
-      · simp only [hk, Bool.false_eq_true, if_false]; exact hs
-  | asyncCacheSet k => simp only [step]; split <;> exact hs
-  | evict k => exact hs
-  | expire => exact hs
-
-theorem inv_init : Inv State.init := by
-  intro h v hl; simp [State.init] at hl
-
-theorem inv_step (s : State) (op : Op) (hi : Inv s) : Inv (step s op) := by
-  intro h v hl
-  cases op with
-  | add k x =>
-    have hc : (step s (.add k x)).cache = s.cache := by simp only [step]; split <;> rfl
-    rw [hc] at hl
-    exact store_stable_step s (.add k x) h v (hi h v hl)
-  | asyncCacheSet k =>
-    simp only [step] at hl ⊢
-    split at hl
-    · rename_i x hx
+    · exact ⟨fun h v hl => List.mem_cons_of_mem _ (hs h v hl), fun h v hl => List.mem_cons_of_mem _ (hc h v hl)⟩
+    · refine ⟨?_, fun h v hl => List.mem_cons_of_mem _ (hc h v hl)⟩
+      intro h v hl
       simp only at hl ⊢
       rw [lookup_cons_eq] at hl
       by_cases hk : (h == k) = true
-      · have : h = k := by simpa using hk
-        subst this
-        simp only [hk, if_true, Option.some.injEq] at hl
-        subst hl; exact hx
+      · simp only [hk, if_true, Option.some.injEq] at hl
+        have : h = k := by simpa using hk
+        subst this; subst hl
+        exact List.mem_cons_self ..
       · simp only [hk, Bool.false_eq_true, if_false] at hl
-        exact hi h v hl
-    · exact hi h v hl
-  | evict k =>
-    simp only [step] at hl ⊢
-    exact hi h v (lookup_filter_ne _ _ _ _ hl)
-  | expire =>
-    simp [step] at hl
+        exact List.mem_cons_of_mem _ (hs h v hl)
+  | cacheSet k x =>
+    simp only [step]
+    split
+    · rename_i hen
+      refine ⟨hs, ?_⟩
+      intro h v hl
+      simp only at hl ⊢
+      rw [lookup_cons_eq] at hl
+      by_cases hk : (h == k) = true
+      · simp only [hk, if_true, Option.some.injEq] at hl
+        have : h = k := by simpa using hk
+        subst this; subst hl
+        simpa [cacheSetEnabled] using hen
+      · simp only [hk, Bool.false_eq_true, if_false] at hl
+        exact hc h v hl
+    · exact ⟨hs, hc⟩
+  | evict k => exact ⟨hs, fun h v hl => hc h v (lookup_filter_ne _ _ _ _ hl)⟩
+  | expire => exact ⟨hs, by intro h v hl; simp [step] at hl⟩
+  | delete k => exact ⟨fun h v hl => hs h v (lookup_filter_ne _ _ _ _ hl), hc⟩
+  | tamper k x =>
+    simp only [step]
+    refine ⟨?_, fun h v hl => List.mem_cons_of_mem _ (hc h v hl)⟩
+    intro h v hl
+    rcases lookup_setKey _ _ _ _ _ hl with ⟨rfl, rfl⟩ | hl'
+    · exact List.mem_cons_self ..
+    · exact List.mem_cons_of_mem _ (hs h v hl')
 
-theorem inv_run (s : State) (ops : List Op) (hi : Inv s) : Inv (run s ops) := by
+theorem invK_run (s : State) (ops : List Op) (hi : InvK s) : InvK (run s ops) := by
   induction ops generalizing s with
   | nil => exact hi
-  | cons op ops ih => exact ih _ (inv_step s op hi)
+  | cons op ops ih => exact ih _ (invK_step s op hi)
 
-theorem store_stable_run (s : State) (ops : List Op) (h v : Bytes) (hs : s.store.lookup h = some v) :
-    (run s ops).store.lookup h = some v := by
+theorem invH_step (c : Bytes → Bytes) (s : State) (op : Op) (ho : op.honest c) (hk : InvK s) (hi : InvH c s) :
+    InvH c (step s op) := by
+  cases op with
+  | add k x =>
+    simp only [Op.honest] at ho
+    subst ho
+    simp only [step]
+    split
+    · rename_i hex
+      intro h v hm
+      simp only at hm ⊢
+      rcases List.mem_cons.mp hm with he | hm
+      · simp only [Prod.mk.injEq] at he
+        obtain ⟨rfl, rfl⟩ := he
+        refine ⟨rfl, ?_⟩
+        cases hl : s.store.lookup h with
+        | none => simp [hl] at hex
+        | some v' =>
+          have := (hi h v' (hk.1 h v' hl)).1
+          rw [this]
+      · exact hi h v hm
+    · rename_i hex
+      intro h v hm
+      simp only at hm ⊢
+      rw [lookup_cons_eq]
+      rcases List.mem_cons.mp hm with he | hm
+      · simp only [Prod.mk.injEq] at he
+        obtain ⟨rfl, rfl⟩ := he
+        exact ⟨rfl, by simp⟩
+      · obtain ⟨h1, h2⟩ := hi h v hm
+        refine ⟨h1, ?_⟩
+        by_cases hkk : (h == k) = true
+        · have : h = k := by simpa using hkk
+          subst this
+          rw [h2] at hex; simp at hex
+        · simp only [hkk, Bool.false_eq_true, if_false]; exact h2
+  | cacheSet k x => simp only [step]; split <;> exact hi
+  | evict k => exact hi
+  | expire => exact hi
+  | delete k => exact absurd ho (by simp [Op.honest])
+  | tamper k x => exact absurd ho (by simp [Op.honest])
+
+theorem invH_run (c : Bytes → Bytes) (s : State) (ops : List Op) (ho : ∀ op ∈ ops, op.honest c) (hk : InvK s) (hi : InvH c s) :
+    InvH c (run s ops) := by
   induction ops generalizing s with
-  | nil => exact hs
-  | cons op ops ih => exact ih _ (store_stable_step s op h v hs)
+  | nil => exact hi
+  | cons op ops ih =>
+    exact ih _ (fun o hm => ho o (List.mem_cons_of_mem _ hm)) (invK_step s op hk)
+      (invH_step c s op (ho op (List.mem_cons_self ..)) hk hi)
 
-theorem getByHash_of_inv (s : State) (hi : Inv s) (h : Bytes) :
-    getByHash s {} h = match s.store.lookup h with
+theorem inv_of (c : Bytes → Bytes) (s : State) (hk : InvK s) (hi : InvH c s) : Inv s :=
+  fun h v hl => (hi h v (hk.2 h v hl)).2
+
+theorem getByHashRaw_of_inv (s : State) (hi : Inv s) (h : Bytes) :
+    getByHashRaw s {} h = match s.store.lookup h with
       | some v => .ok v
       | none => .error .unknownHash := by
-  unfold getByHash
+  unfold getByHashRaw
   simp only [Bool.false_eq_true, if_false]
   cases hc : s.cache.lookup h with
   | none => rfl
   | some v => rw [hi h v hc]
+
+theorem run_append (s : State) (a b : List Op) : run s (a ++ b) = run (run s a) b := by
+  simp [run, List.foldl_append]
 
 end CTV.Model.ChainStore
